@@ -314,11 +314,16 @@ def standard_check(prop, tier, seed, widen=False, gen=None, race=False):
     failures = []
     cd = dict(cases)
     dec = DECISIVE.get(prop, set())
+    tables_relevant = 'proofs/GenTables.v' in vo_deps('props/%s.vo' % prop)
     for cid, r in res.items():
         if r[0] == 'ok':
             continue
         # observations that concern another property (prop-* tags not decisive here) are not this check's business
         tags = [t for t in r[1] if not t.startswith('prop-') or t in dec]
+        # model-*: the generated tables no longer reproduce the reference encoder; that is the
+        # tables_ok obligation, and concerns only the properties whose theorems assume it
+        if not tables_relevant:
+            tags = [t for t in tags if not t.startswith('model-')]
         if not tags:
             continue
         failures.append({'id': cid, 'case': cd[cid], 'tags': tags, 'detail': r[2], 'obs': obs.get(cid, ''),
